@@ -440,14 +440,13 @@ func (e *Engine) directFrame(f *ssa.Function, fs *frameSet) {
 				fs.keys[k] = s
 			}
 		}
+		if ct := e.contracts.Funcs[f.String()]; ct != nil {
+			e.rawModifies(ct, fs)
+		}
 		return
 	}
 	if ct := e.contracts.Funcs[fnKey(f, e.home)]; ct != nil && ct.HasMod {
-		for _, m := range ct.Modifies {
-			if m == "*" {
-				fs.all = true
-			}
-		}
+		e.rawModifies(ct, fs)
 	}
 	cells := map[*ssa.Alloc]bool{}
 	for _, b := range f.Blocks {
@@ -498,7 +497,7 @@ func (e *Engine) callFrameShallow(ci ssa.CallInstruction) frameSet {
 		return out
 	}
 	if c.IsInvoke() {
-		ikey := "(" + typeKey(c.Value.Type()) + ")." + c.Method.Name()
+		ikey := e.ifaceKey(c.Value.Type(), c.Method.Name())
 		if ks, ok := libFrames[ikey]; ok {
 			for k, s := range ks {
 				if k == "*" {
@@ -510,12 +509,33 @@ func (e *Engine) callFrameShallow(ci ssa.CallInstruction) frameSet {
 			return out
 		}
 		if ct := e.contracts.Funcs[ikey]; ct != nil {
-			for _, m := range ct.Modifies {
-				if m == "*" {
-					out.all = true
+			e.rawModifies(ct, &out)
+			// the package's own implementers may also be the dynamic type
+			for _, im := range e.implementers(c.Value.Type(), c.Method.Name()) {
+				if im.fn.Pkg != nil && e.homes[im.fn.Pkg.Pkg] {
+					fs := e.frameOfCached(im.fn)
+					if fs.all {
+						out.all = true
+					}
+					for k, s := range fs.keys {
+						out.keys[k] = s
+					}
 				}
 			}
 			return out
+		}
+		if !e.closedWorld(c.Value.Type()) {
+			for _, im := range e.implementers(c.Value.Type(), c.Method.Name()) {
+				if im.fn.Pkg != nil && e.homes[im.fn.Pkg.Pkg] {
+					fs := e.frameOfCached(im.fn)
+					if fs.all {
+						out.all = true
+					}
+					for k, s := range fs.keys {
+						out.keys[k] = s
+					}
+				}
+			}
 		}
 	}
 	callees := e.callees(ci)
@@ -553,6 +573,43 @@ func (e *Engine) callFrameShallow(ci ssa.CallInstruction) frameSet {
 	}
 	return out
 }
+
+func (e *Engine) frameOfCached(fn *ssa.Function) frameSet {
+	if fs, ok := e.frames[fn]; ok {
+		return *fs
+	}
+	return e.frameOf(fn)
+}
+
+// rawModifies adds "$<heap key prefix>" and "*" entries of a contract's modifies clause.
+func (e *Engine) rawModifies(ct *Contract, out *frameSet) {
+	for _, m := range ct.Modifies {
+		if m == "*" {
+			out.all = true
+		} else if strings.HasPrefix(m, "$ghost|") {
+			name := m[len("$ghost|"):]
+			srt := SInt
+			if e.contracts.Ghosts[name] == "bool" {
+				srt = SBool
+			}
+			out.keys["ghost|"+name] = srt
+		} else if strings.HasPrefix(m, "$") {
+			for k, s := range knownHeapKeys {
+				if strings.HasPrefix(k, m[1:]) {
+					out.keys[k] = s
+				}
+			}
+		}
+	}
+}
+
+var knownHeapKeys = func() map[string]Sort {
+	m := map[string]Sort{kBufLen: arrOf(SInt), kBufOwned: arrOf(SBool), kConnCode: arrOf(SInt)}
+	for k, s := range hdrKeys() {
+		m[k] = s
+	}
+	return m
+}()
 
 func (e *Engine) callFrame(ci ssa.CallInstruction) frameSet {
 	for _, callee := range e.callees(ci) {
@@ -603,7 +660,7 @@ func (e *Engine) storeTarget(addr ssa.Value, cells map[*ssa.Alloc]bool, keys map
 	case *ssa.Alloc:
 		et := a.Type().(*types.Pointer).Elem()
 		if kindOf(et) == KStruct {
-			e.structKeys(et, keys)
+			// a struct object allocated by this very function: invisible to callers
 		} else {
 			cells[a] = true
 		}
@@ -611,6 +668,9 @@ func (e *Engine) storeTarget(addr ssa.Value, cells map[*ssa.Alloc]bool, keys map
 		stt, key := structOf(a.X.Type())
 		if stt == nil {
 			return
+		}
+		if rootAlloc(a.X) {
+			return // field of an object allocated by this function
 		}
 		e.fieldKeys(stt, key, a.Field, keys)
 	case *ssa.IndexAddr:
@@ -678,6 +738,36 @@ func (e *Engine) structKeys(t types.Type, keys map[string]Sort) {
 	}
 }
 
+// storeTargetLoop: like storeTarget, but writes to objects allocated by the function itself count
+// (a loop may update a struct local declared before it).
+func (e *Engine) storeTargetLoop(addr ssa.Value, cells map[*ssa.Alloc]bool, keys map[string]Sort) {
+	switch a := addr.(type) {
+	case *ssa.Alloc:
+		et := a.Type().(*types.Pointer).Elem()
+		if kindOf(et) == KStruct {
+			e.structKeys(et, keys)
+			return
+		}
+	case *ssa.FieldAddr:
+		if stt, key := structOf(a.X.Type()); stt != nil && rootAlloc(a.X) {
+			e.fieldKeys(stt, key, a.Field, keys)
+			return
+		}
+	}
+	e.storeTarget(addr, cells, keys)
+}
+
+// rootAlloc: is the pointer (syntactically) the address of a struct allocated in this function?
+func rootAlloc(v ssa.Value) bool {
+	switch a := v.(type) {
+	case *ssa.Alloc:
+		return kindOf(a.Type().(*types.Pointer).Elem()) == KStruct
+	case *ssa.FieldAddr:
+		return rootAlloc(a.X)
+	}
+	return false
+}
+
 // addrRoots: if v is (derived from) the address of a local cell, record the cell.
 func (e *Engine) addrRoots(v ssa.Value, cells map[*ssa.Alloc]bool) {
 	switch a := v.(type) {
@@ -697,3 +787,15 @@ func (e *Engine) addrRoots(v ssa.Value, cells map[*ssa.Alloc]bool) {
 }
 
 var _ = strings.HasPrefix
+
+// ifaceKey names an interface method: "(pkg/path.Iface).Method", with the short package name for
+// the packages under verification.
+func (e *Engine) ifaceKey(t types.Type, method string) string {
+	s := types.TypeString(t, func(p *types.Package) string {
+		if e.homes[p] {
+			return p.Name()
+		}
+		return p.Path()
+	})
+	return "(" + s + ")." + method
+}
